@@ -697,6 +697,14 @@ func checkPruneParse(c *core.Ctx, r *core.Report) {
 			}
 			if f := core.CalleeFunc(call); f != nil && strings.HasPrefix(f.Name(), "ConvertTo") {
 				failed[f.Name()] = true
+			} else if h := call.Call.StaticCallee(); h != nil && h.Blocks != nil && core.IsRepoPkg(core.FnPkgPath(h)) {
+				// an accessor around the conversion (a memoising `asFloat()` of a parsed-literal object): the
+				// conversions it makes are the ones that failed
+				for _, cj := range core.CallsIn(h) {
+					if g := core.CalleeFunc(cj); g != nil && strings.HasPrefix(g.Name(), "ConvertTo") {
+						failed[g.Name()] = true
+					}
+				}
 			}
 		}
 		if len(failed) == 0 {
@@ -1043,7 +1051,7 @@ func checkRecordStart(c *core.Ctx, r *core.Report) {
 					clean := true
 					core.WalkForward(init, in, func(y ssa.Instruction) bool {
 						if ci, ok := y.(ssa.CallInstruction); ok {
-							if callee := ci.Common().StaticCallee(); callee != nil && callee.Name() == "backFillPastRecords" {
+							if callee := ci.Common().StaticCallee(); callee != nil && c.BaseName(callee.Object()) == "backFillPastRecords" {
 								clean = false
 							}
 						}
